@@ -11,7 +11,7 @@ The client side of C12 (exts/getput) is proved in Props/C12Client.lean and resta
 -/
 import DhtVerif.Lemmas.C12
 import DhtVerif.Props.C12Client
-import DhtVerif.Props.SourceTrees2
+import DhtVerif.Props.ST2Bep44
 namespace Dht
 open B44
 
